@@ -356,6 +356,14 @@ func (se *SessionExecutor) preBuildUnshardPlan(reqCtx *util.RequestContext, db s
 		return nil, false
 	}
 
+	// the checks above look at the token next to one keyword and compare it case-sensitively
+	// (`from T_SHARD`, `from u, t_shard`, `from u join t_shard`, a sub-query, a comment or a
+	// back-quote glued to the name all pass): never shortcut a statement that mentions the
+	// name of a table with a shard rule anywhere, let the parser decide
+	if isUnshardPlan && plan.MentionsShardTable(sql, rt) {
+		isUnshardPlan = false
+	}
+
 	if isUnshardPlan {
 		// check databases and tables in sql
 		p, err := plan.PreCreateUnshardPlan(sql, phyDBs, ruleDB)
